@@ -150,7 +150,10 @@ def run_seeded_faults(prop):
                 out.append({'change': name, 'result': 'patch does not apply to the current tree'})
                 continue
             r = subprocess.run([sys.executable, os.path.join(HERE, 'check.py'), prop, '--tier', 'quick', '--repo', d],
-                               capture_output=True, text=True, cwd=HERE, env={**os.environ, 'PVC_EVIDENCE_DIR': evd, 'PVC_NO_MUTANTS': '1'})
+                               capture_output=True, text=True, cwd=HERE,
+                               env={**os.environ, 'PVC_EVIDENCE_DIR': evd, 'PVC_NO_MUTANTS': '1',
+                                    # runs against CHANGED copies may reuse results of functions whose text and context are unchanged
+                                    'PVC_CACHE': os.environ.get('PVC_CACHE', os.path.join(HERE, '.cache', 'pvc'))})
             failed = [l.strip()[len('failed obligation '):].split(':')[0] + ':' + l.strip()[len('failed obligation '):].split(':')[1]
                       for l in r.stdout.splitlines() if l.strip().startswith('failed obligation')][:3]
             out.append({'change': name, 'summary': summary[:160], 'result': {0: 'SURVIVED', 1: 'detected', 2: 'undecided', 3: 'checker-error'}.get(r.returncode, str(r.returncode)),
@@ -199,10 +202,14 @@ def main():
     tier = a.tier if a.tier in ('quick', 'thorough') else 'quick'
     seed = int(os.environ.get('VERIF_SEED', '0') or 0)
     t0 = time.time()
-    from pvc.run import run
+    from pvc.run import run, augment
     from pvc.engine import Sidecar
+    from pvc.repoindex import RepoIndex
     cdir = os.path.join(HERE, 'contracts')
-    side = Sidecar(cdir)
+    try:
+        side = augment(Sidecar(cdir), RepoIndex(a.repo))
+    except Exception:
+        side = Sidecar(cdir)
     timeout_ms = 10000 if tier == 'quick' else 30000
     second_ms = 20000 if tier == 'quick' else 60000
     try:
@@ -261,7 +268,13 @@ def main():
     native_only = []
     if not a.no_native and (results or bounded_keys):
         sweep = native_sweep(a.repo, [r['key'] for r in results if not r['key'].startswith('lemma:')] + bounded_keys, seed)
-        if bounded_keys and (not sweep or sweep.get('status') not in ('clean', 'violated')):
+        if sweep and sweep.get('pool_failed') and not any(prop in clause_props(side, v['func'], v['clause']) for v in sweep.get('violations', [])):
+            # the witness pool could not be built on this tree (reported as a violation by the checks of the class-processing properties):
+            # this property's run-time part is undecided, not an error of the checker
+            print(f"UNDECIDED run-time contract check: the witness pool cannot be built on this tree ({sweep['violations'][0]['what'][:200]})")
+            still_undecided.append({'id': 'native#pool', 'func': 'native', 'kind': 'pool', 'origin': 'witness pool', 'reason': sweep['violations'][0]['what'][:200],
+                                    'verdict': 'undecided', 'backend': 'native', 'props': [prop], 'route': 'runtime', 'time_s': 0.0, 'model': ''})
+        elif bounded_keys and (not sweep or sweep.get('status') not in ('clean', 'violated')):
             print(f"CHECKER-ERROR bounded run-time contract check did not complete: {sweep}")
             errors.append({'key': 'native', 'error': str(sweep)})
         if sweep and sweep.get('status') == 'violated':
@@ -326,7 +339,7 @@ def main():
     if n_obl + len(known) == 0 and not bounded_keys:
         vac.append('zero obligations generated')
     bounded_calls = sum(v for k, v in ((sweep or {}).get('per_function') or {}).items() if k in bounded_keys and isinstance(v, int))
-    if bounded_keys and not a.no_native and bounded_calls == 0:
+    if bounded_keys and not a.no_native and bounded_calls == 0 and not (sweep or {}).get('pool_failed'):
         vac.append('bounded contracts evaluated on zero inputs')
     for r in results:
         if r['status'] == 'ok' and not r['obligations']:
